@@ -109,6 +109,7 @@ type Exec struct {
 	probes     map[string][]probeRec
 	inProbe    bool
 	nsamples   int
+	shared     int
 
 	entryPkg *ssa.Package
 	initFns  []*ssa.Function
@@ -168,6 +169,7 @@ func (e *Exec) assertPC(t *Term) {
 func (e *Exec) chooseN(n int, feasible func(i int) bool) int {
 	if e.pos < len(e.trail) {
 		d := e.trail[e.pos]
+		e.solver.Decision(e.pos)
 		e.pos++
 		return d.chosen
 	}
@@ -185,6 +187,7 @@ func (e *Exec) chooseN(n int, feasible func(i int) bool) int {
 	}
 	e.st.Decisions++
 	e.trail = append(e.trail, decision{chosen: ok[0], remaining: ok[1:]})
+	e.solver.Decision(e.pos)
 	e.pos++
 	return ok[0]
 }
@@ -194,6 +197,9 @@ func (e *Exec) check(extra ...*Term) string {
 	if r == "unknown" {
 		e.st.Inconclusive++
 		e.note("solver returned unknown")
+		if e.solver.Broken {
+			panic(pathEnd{"inconclusive", "solver process died"})
+		}
 	}
 	return r
 }
@@ -211,6 +217,7 @@ func (e *Exec) decide(c *Term) bool {
 	}
 	if e.pos < len(e.trail) {
 		d := e.trail[e.pos]
+		e.solver.Decision(e.pos)
 		e.pos++
 		if d.chosen == 0 {
 			e.assertPC(c)
@@ -245,6 +252,7 @@ func (e *Exec) decide(c *Term) bool {
 	}
 	e.st.Decisions++
 	e.trail = append(e.trail, decision{chosen: ok[0], remaining: ok[1:]})
+	e.solver.Decision(e.pos)
 	e.pos++
 	if ok[0] == 0 {
 		e.assertPC(c)
